@@ -673,6 +673,10 @@ def run(c, facts):
     c.shared(R12, _c13.r4_err_disc, 'C13.R4', facts)
     c.shared(R12, _c15.r6_doc_sync, 'C15.R6', facts)
     c.run(r10_locator_identity, facts)
+    R13 = c.rule('C10.R13', 'ERRORS-KEPT: a cycle or a missing import reported by the load of one folder is still pending when the diagnostics are published - the pending errors are emptied by diagnostics() alone (shared with C15.R3)')
+    c.shared(R13, _c15.r3_reset_all, 'C15.R3', facts)
+    import inferrules as _I10
+    c.run(lambda c: _I10.var_namespace(c, facts, c.rule('C10.R14', 'VAR-NAMESPACE (shared C07.R6): every module numbers its tag variables under its own locator, so a complete acyclic import graph compiles module by module without the residual variables of an imported definition aliasing the importer\'s')))
     c.run(r9_use_order, facts)
     c.run(r8_spelling, facts)
     c.run(r7_locators, facts)
